@@ -34,6 +34,10 @@ claim('C09', 'CrossHair symbolic execution of small_factors (symbolic n) and _ge
       'for all k, z3 regex-theory equivalence of terminal-level repetition patterns, and CrossHair-driven end-to-end parses around the bounds',
       'Bounded in n, mx, m (stated in evidence); unbounded in the repetition count k (LIA) and in the matched string (regex theory).',
       'Trusted: z3 LIA/regex theory, the compositional interval argument (sum of intervals is an interval; union checked by z3).', '3/C09')
+claim('C18', 'CrossHair symbolic execution of the real Indenter: one handle_NL step from an arbitrary symbolic state (unbounded stack values, bracket depth, tab_len) and bounded '
+      'lazily realised token streams incl. streams after an abandoned/failed earlier stream, vs. CPython\'s stack algorithm and the real tokenize module',
+      'The step harness is inductive (one step from an arbitrary valid state covers streams of any length) for stack depth <= 6; streams are bounded in length.',
+      'Trusted: reference algorithm; stub: formatting of symbolic ints into the DedentError message returns the template.', '3/C18')
 claim('C06', 'z3 regex-theory queries on sre_parse translations of the real terminal regexps (newline lemma, unbounded over strings) + CrossHair symbolic execution of LineCounter '
       'from an arbitrary integer pre-state + CrossHair over all class-strings through every lexer',
       'The newline lemma is decided for all strings per terminal spelling; the counter step is inductive over unbounded integer state with a bounded token; the end-to-end part is bounded by '
